@@ -403,6 +403,10 @@ def kv_apply(d, op, args):
         if len(d['l']) % args[1] == 0:
             d['n'] += 1
             d['h'] = h32(d['h'], op, uid, 'raise')
+            if uid % 3 == 0:
+                raise ReplRaise()           # exceptions without arguments are exceptions too
+            if uid % 3 == 1:
+                assert False                # message-less assert, like ReplList.reset(<not a list>)
             raise ReplRaise(uid)
         r = 'ok'
     else:
@@ -1071,6 +1075,8 @@ class Sim(object):
             c = rng.random()
             if c < 0.5:
                 return ('S', p.key, 'kv', 'failif', ('$UID', rng.choice([1, 2, 3])))
+            if c < 0.6 and 'list' in cons:
+                return ('S', p.key, cons.index('list'), 'reset', ('not-a-list-$UID',))      # AssertionError() without arguments
             if c < 0.7 and 'list' in cons:
                 return ('S', p.key, cons.index('list'), 'remove', (rng.randrange(5),))
             if c < 0.85 and 'list' in cons:
